@@ -63,14 +63,48 @@ def write_if_changed(path, text):
     return True
 
 
+
+# Grammar features that a plain draw of 20 traits leaves out of a large share of the batches
+# (measured over 40 seeds: skip_func absent from 30, extern "C" methods from 27, vtbl_only from 21,
+# result aliases from 16): every batch is completed so that each occurs at least once.
+MUST_FEATURES = ["skip_func", "extern-c-method", "vtbl_only", "int_result-alias", "self-return", "ret:reschild", "int_result-unit-ok"]
+
+
+def batch_traits(rng, seed, n_traits):
+    """the batch's trait definitions: n draws, then the last slots are redrawn (deterministically)
+    until every feature of MUST_FEATURES occurs somewhere in the batch"""
+    traits = []
+    for k in range(n_traits):
+        trng = random.Random(rng.getrandbits(64))
+        traits.append(gen.gen_trait(trng, f"Tr{k}", f"t{k}", tindex=k))
+    if n_traits < 2 * len(MUST_FEATURES):
+        return traits
+    taken = set()
+    for f in MUST_FEATURES:
+        if any(f in t.features() for t in traits):
+            continue
+        # redraw a slot that is not the only carrier of another required feature
+        def sole(k):
+            return any(g in traits[k].features() and not any(g in t.features() for i, t in enumerate(traits) if i != k) for g in MUST_FEATURES)
+        slot = next((k for k in range(n_traits - 1, -1, -1) if k not in taken and not sole(k)), None)
+        if slot is None:
+            break
+        for attempt in range(5000):
+            trng = random.Random((seed * 7919 + slot) * 10000 + attempt)
+            t = gen.gen_trait(trng, f"Tr{slot}", f"t{slot}", tindex=slot)
+            if f in t.features():
+                traits[slot] = t
+                taken.add(slot)
+                break
+    return traits
+
+
 def make_single(seed, n_traits, name, module, drop=(), lite=False):
     """The crate of make_batch reduced to ONE trait module, optionally without some of its methods
     (structural shrinking of a failing program)."""
     rng = random.Random(seed * 1000003 + n_traits)
     trait = None
-    for k in range(n_traits):
-        trng = random.Random(rng.getrandbits(64))
-        t = gen.gen_trait(trng, f"Tr{k}", f"t{k}", tindex=k)
+    for k, t in enumerate(batch_traits(rng, seed, n_traits)):
         if f"m{k}" == module:
             trait = t
     if trait is None:
@@ -94,11 +128,7 @@ def make_batch(seed, n_traits, name, exclude=(), lite=()):
     """Deterministic in (seed, n_traits). `exclude`: module names dropped (compile-rejected);
     `lite`: trait modules emitted without the by-name vtable getters."""
     rng = random.Random(seed * 1000003 + n_traits)
-    traits = []
-    for k in range(n_traits):
-        trng = random.Random(rng.getrandbits(64))
-        t = gen.gen_trait(trng, f"Tr{k}", f"t{k}", tindex=k)
-        traits.append((f"m{k}", t))
+    traits = [(f"m{k}", t) for k, t in enumerate(batch_traits(rng, seed, n_traits))]
     # groups over the batch's traits
     groups = []
     n_groups = max(2, n_traits // 5)
